@@ -33,12 +33,13 @@ def stubKwD (apd : Bool) (w : World) (src : ClassSrc) : Bool := (addlAttr w src)
 /-- the generated `__init__` of the class that `class src.name(src.bases): …` creates in world `w` -/
 def stubInitD (apd : Bool) (w : World) (src : ClassSrc) : Stub.Sig := ⟨stubArgsD (build w src), stubKwD apd w src⟩
 
-/-- `**kwargs` of `__signature__` under the runtime default `dflt` (`Sem/Define.sigOf` is the case `dflt = true`) -/
-def sigKwD (dflt : Bool) (src : ClassSrc) : Bool := src.addl.getD dflt
+/-- `**kwargs` of `__signature__` under the runtime default `dflt`: the inherited `getattr` since the repair of the
+    findings "inherited-additional-properties*" -/
+def sigKwD (dflt : Bool) (w : World) (src : ClassSrc) : Bool := (addlAttr w src).getD dflt
 
 /-- the constructor takes an unknown keyword: `__signature__.bind` needs `**kwargs`, the `__setattr__` guard the
     inherited flag -/
-def admitsD (dflt : Bool) (w : World) (src : ClassSrc) : Bool := sigKwD dflt src && (addlAttr w src).getD dflt
+def admitsD (dflt : Bool) (w : World) (src : ClassSrc) : Bool := sigKwD dflt w src && (addlAttr w src).getD dflt
 
 /-- Define's `Sig` as a parameter table -/
 def sigParamsD (s : Typedpy.Sig) : List Param := s.req.map (fun n => ⟨n, false⟩) ++ s.opt.map (fun n => ⟨n, true⟩)
